@@ -524,6 +524,15 @@ func (e *Eng) actRefresh() {
 	}
 	r.Fails++
 	e.label("refresh-refused:" + strings.Join(reasons, "+"))
+	if len(reasons) == 2 && has("used") && has("foreign") {
+		// whoever presents it: an already-used refresh token is a replay, and the replay kills the family (the
+		// presenter is an authenticated client entitled to the refresh grant, or a third reason would be listed)
+		e.label("refresh-replay")
+		e.label("refresh-replay-by-foreign-client")
+		e.killFamily(g, "C04/reuse-did-not-kill-family")
+		e.invariant("C04/reuse-affected-other-grant", g)
+		return
+	}
 	if len(reasons) == 2 && has("used") && has("expired") {
 		// an already-used refresh token stays an already-used refresh token after its own expiry: presenting it
 		// is a replay and kills the family (the newest tokens may well be alive)
